@@ -7,9 +7,28 @@ DEDUCTIVE = [{"module": "rnapolis.parser", "sidecar": "contracts.parser_c",
               "targets": ["read_3d_structure", "group_atoms", "lemma:close_run", "lemma:close_run_keys", "lemma:extend_open", "lemma:start_open",
                           "parse_pdb@decode", "lemma:record_names", "lemma:decoded_snoc",
                           "filter_clashing_atoms", "filter_clashing_atoms@single"]}]
-TRUSTED = ["mmcif IoAdapterPy tokeniser", "scipy KD-tree", "float()/int() of well-formed numerals", "CPython 3.12"]
-ASSUMPTIONS = ["ties in occupancy leave the surviving copy unspecified (either is accepted)"]
-EXPLANATION = "see DESIGN.md 4/C08"
+TRUSTED = ["mmcif IoAdapterPy tokeniser", "scipy KD-tree", "float()/int() of well-formed numerals", "CPython 3.12",
+           # assumed contracts / externals of contracts/parser_c.py (deductive part)
+           "KDTree.query_pairs(r) returns exactly the index pairs (a < b) of points at distance <= r (assumed contract); KDTree(points) raises ValueError iff the point list is empty; numpy.array(list of (x, y, z)) is that point list",
+           "IO.seek / IO.readlines: readlines() after seek(0) returns the list of the file's lines (ghost field IO.lines)",
+           "str.strip(): a deterministic function of its argument (uninterpreted py_strip); float(str): uninterpreted value py_float(s), raises ValueError exactly unless the uninterpreted py_float_ok(s); int(str): pyvc ext_int_of_str (ASCII grammar [ws][+-]digits[_digits][ws], value uninterpreted py_int except plain digit strings and '-'+digits)",
+           "Residue3D.is_nucleotide is a pure function of the frozen record (uninterpreted; only the nucleic_acid_only filter uses it)",
+           "callee contracts assumed, not verified: is_cif, parse_cif (result shapes only, no ensures), get_residue_name, get_one_letter_name (may raise IndexError), detect_one_letter_name (each: returns a str, no ensures)",
+           "z3 / cvc5 (strings, arrays, quantifiers)"]
+ASSUMPTIONS = ["ties in occupancy leave the surviving copy unspecified (either is accepted)",
+               "definitional lemmas (not proved, conservative abbreviations): wfl_definition (wfl(l) := wf_line(lines[l]), the per-line PDB well-formedness predicate of parse_pdb@decode's precondition), within_definition (within(p, q, r) := |p - q|^2 <= r^2; never unfolded by a proof)",
+               "parse_pdb@decode precondition (well-formed PDB text): record names occupy columns 1-6; every ATOM/HETATM line has >= 27 characters (shorter ones raise IndexError at line[21] / line[26]; slices never raise) and its resSeq / x / y / z / occupancy columns parse; MODEL serials and MODRES sequence numbers parse; MODRES lines have >= 24 characters; the file has at least one ATOM/HETATM record",
+               "tuple(residue_atoms) is modelled as the immutable sequence of the list's elements (sidecar TUPLE_AS_SEQUENCE); dicts modified in loops keep the representation invariant 'key list = keys, each once' (DICT_ORDER_INVARIANT); composite dict/set keys are packed by an injective uninterpreted function (PACK_KEYS)",
+               "arithmetic over the reals (A-real); strings are z3 sequences of code points <= 0x2FFFF",
+               "termination of filter_clashing_atoms' recursion is not proved (partial correctness: the recursive calls use the function's own contract)",
+               "the order of filter_clashing_atoms' result depends on the iteration order of a set of ints (CPython: increasing for set(range(n)) minus discards): the contracts state the result up to that order (ghost enumeration E); 'file order' of read_3d_structure / group_atoms is relative to the atom list parse_pdb / parse_cif return"]
+EXPLANATION = ("Deductive part (pyvc, contracts/parser_c.py; real source re-read on every run). "
+               "read_3d_structure: with P the parsed atom list, the atoms handed to group_atoms are exactly the atoms of P, unchanged, in file order, each once (ghost index maps X, Y from the filter's definition), whose model is the requested one if some atom has it and else the model of the first atom; 'a model present in the file is returned and never another'; the result is group_atoms' grouping of them; IndexError only when the file has no atom (ghost assertion). "
+               "group_atoms: the residues are consecutive non-empty runs S[k]..S[k+1] covering all atoms in order, each residue holds exactly its run's atoms in order, its (label, auth, model) is that of every one of its atoms, neighbouring residues differ in that key (maximal runs); with nucleic_acid_only the result is a subsequence of these residues. "
+               "parse_pdb@decode (under the well-formedness precondition): every ATOM/HETATM record (record name in columns 1-6) is decoded exactly once in file order, with name = strip(cols 13-16), resName = strip(18-20), chain = col 22, number = int(strip(23-26)) (so negative numbers), icode = None iff col 27 is blank, x/y/z/occupancy = float(strip(31-38/39-46/47-54/55-60)), model = int(strip(cols 11-14)) of the LAST preceding MODEL record, 1 if none; no IndexError/ValueError; the returned atoms satisfy filter_clashing_atoms' contract w.r.t. the decoded ones. MODRES handling: only exception freedom. "
+               "filter_clashing_atoms (any number of models, recursion through its own contract): every result atom is an input atom; at most one per (model, label, auth, name); it has the highest occupancy-or-0 among the input atoms of that slot; no two result atoms of one model with known occupancies are within the clash distance (KD-tree contract). "
+               "filter_clashing_atoms@single (one model): additionally the kept copies UL (one per key, highest occupancy, input atoms), the result = the surviving positions of UL each once (in set-iteration order E), a kept copy is dropped only if it lost a pairwise comparison against a kept copy within the clash distance whose occupancy is not lower, ValueError iff the input is empty. "
+               "Not deductive (bounded oracle only): parse_cif / mmCIF null markers, is_cif, the name helpers, completeness of filter_clashing_atoms across models ('every atom is represented unless a copy lost a comparison' is proved for one model only), result order of the clash filter, termination of the recursion.")
 
 
 def bounded(tier, seed):
